@@ -1,4 +1,5 @@
 import Tv.GenClosures
+import Tv.Thm.C02Gen
 import Tv.Lemmas.GenSim
 import Tv.Thm.C04
 import Mathlib.Tactic.Ring
@@ -569,5 +570,94 @@ theorem ts_vregx_resid_skew_mask (sqrt : Rat → Rat) (xs ys : List (Option Rat)
   obtain ⟨va, vb⟩ := v
   cases va <;> cases vb <;> simp only [Cross.add] at hlt <;>
     simp [Gen.ts_vregx_resid_skew.step, h0, hlt, Nat.not_le.mpr hlt]
+
+/-! ## from source, end to end: regenerated driver and regenerated closure together -/
+
+/-- **from source, end to end**: regenerated two-series driver (both shapes) + regenerated closure -/
+theorem ts_vcov_from_source (sqrt : Rat → Rat) (xs ys : List (Option Rat)) (w : Nat) (mp : Option Nat)
+    (hw : 1 ≤ w) (hlen : ys.length = xs.length) :
+    C02Gen.E2E2 (fun cs =>
+    List.Forall₂ (Agree sqrt)
+      (genRun (Gen.ts_vcov.step sqrt w (Gen.ts_vcov.minPeriods w mp)) (Gen.ts_vcov.init w) cs)
+      (rolling2 (cov (effMp mp w 2)) xs ys w)) xs ys w :=
+  C02Gen.e2e_apply2 _ xs ys w hw (by omega) (ts_vcov_exact sqrt .to xs ys w mp hw hlen) (ts_vcov_exact sqrt .iter xs ys w mp hw hlen)
+
+/-- **from source, end to end**: regenerated two-series driver (both shapes) + regenerated closure -/
+theorem ts_vcorr_from_source (sqrt : Rat → Rat) (xs ys : List (Option Rat)) (w : Nat) (mp : Option Nat)
+    (hw : 1 ≤ w) (hlen : ys.length = xs.length) :
+    C02Gen.E2E2 (fun cs =>
+    List.Forall₂ AgreeW
+      (genRun (Gen.ts_vcorr.step sqrt w (Gen.ts_vcorr.minPeriods w mp)) (Gen.ts_vcorr.init w) cs)
+      (rolling2 (corr (effMp mp w 0)) xs ys w)) xs ys w :=
+  C02Gen.e2e_apply2 _ xs ys w hw (by omega) (ts_vcorr_exact sqrt .to xs ys w mp hw hlen) (ts_vcorr_exact sqrt .iter xs ys w mp hw hlen)
+
+/-- **from source, end to end**: regenerated two-series driver (both shapes) + regenerated closure -/
+theorem ts_vregx_alpha_from_source (sqrt : Rat → Rat) (xs ys : List (Option Rat)) (w : Nat) (mp : Option Nat)
+    (hw : 1 ≤ w) (hlen : ys.length = xs.length) :
+    C02Gen.E2E2 (fun cs =>
+    List.Forall₂ (Agree sqrt)
+      (genRun (Gen.ts_vregx_alpha.step sqrt w (Gen.ts_vregx_alpha.minPeriods w mp)) (Gen.ts_vregx_alpha.init w) cs)
+      (rolling2 (regxAlpha (effMp mp w 0)) xs ys w)) xs ys w :=
+  C02Gen.e2e_apply2 _ xs ys w hw (by omega) (ts_vregx_alpha_exact sqrt .to xs ys w mp hw hlen) (ts_vregx_alpha_exact sqrt .iter xs ys w mp hw hlen)
+
+/-- **from source, end to end**: regenerated two-series driver (both shapes) + regenerated closure -/
+theorem ts_vregx_beta_from_source (sqrt : Rat → Rat) (xs ys : List (Option Rat)) (w : Nat) (mp : Option Nat)
+    (hw : 1 ≤ w) (hlen : ys.length = xs.length) :
+    C02Gen.E2E2 (fun cs =>
+    List.Forall₂ (Agree sqrt)
+      (genRun (Gen.ts_vregx_beta.step sqrt w (Gen.ts_vregx_beta.minPeriods w mp)) (Gen.ts_vregx_beta.init w) cs)
+      (rolling2 (regxBeta (effMp mp w 0)) xs ys w)) xs ys w :=
+  C02Gen.e2e_apply2 _ xs ys w hw (by omega) (ts_vregx_beta_exact sqrt .to xs ys w mp hw hlen) (ts_vregx_beta_exact sqrt .iter xs ys w mp hw hlen)
+
+/-- **from source, end to end**: regenerated two-series driver (both shapes) + regenerated closure -/
+theorem ts_vregx_all_from_source (sqrt : Rat → Rat) (xs ys : List (Option Rat)) (w : Nat) (mp : Option Nat)
+    (hw : 1 ≤ w) (hlen : ys.length = xs.length) :
+    C02Gen.E2E2 (fun cs =>
+    List.Forall₂ (Agree3 sqrt)
+      (genRun (Gen.ts_vregx_all.step sqrt w (Gen.ts_vregx_all.minPeriods w mp)) (Gen.ts_vregx_all.init w) cs)
+      ((List.range xs.length).map fun i =>
+        let l := complete (window (xs.zip ys) i w)
+        (regxAlpha (effMp mp w 0) l, regxBeta (effMp mp w 0) l, regxSse (effMp mp w 0) l))) xs ys w :=
+  C02Gen.e2e_apply2 _ xs ys w hw (by omega) (ts_vregx_all_exact sqrt .to xs ys w mp hw hlen) (ts_vregx_all_exact sqrt .iter xs ys w mp hw hlen)
+
+/-- **from source, end to end**: regenerated driver (both shapes) + regenerated closure -/
+theorem ts_vreg_from_source (sqrt : Rat → Rat) (xs : List (Option Rat)) (w : Nat) (mp : Option Nat) (hw : 1 ≤ w) :
+    C02Gen.E2E (fun cs =>
+    List.Forall₂ (Agree sqrt)
+      (genRun (Gen.ts_vreg.step sqrt w (Gen.ts_vreg.minPeriods w mp)) (Gen.ts_vreg.init w) cs)
+      (rolling1 (trendFitted (effMp mp w 0)) xs w)) xs w :=
+  C02Gen.e2e_apply _ xs w hw (ts_vreg_exact sqrt .to xs w mp hw) (ts_vreg_exact sqrt .iter xs w mp hw)
+
+/-- **from source, end to end**: regenerated driver (both shapes) + regenerated closure -/
+theorem ts_vtsf_from_source (sqrt : Rat → Rat) (xs : List (Option Rat)) (w : Nat) (mp : Option Nat) (hw : 1 ≤ w) :
+    C02Gen.E2E (fun cs =>
+    List.Forall₂ (Agree sqrt)
+      (genRun (Gen.ts_vtsf.step sqrt w (Gen.ts_vtsf.minPeriods w mp)) (Gen.ts_vtsf.init w) cs)
+      (rolling1 (trendForecast (effMp mp w 0)) xs w)) xs w :=
+  C02Gen.e2e_apply _ xs w hw (ts_vtsf_exact sqrt .to xs w mp hw) (ts_vtsf_exact sqrt .iter xs w mp hw)
+
+/-- **from source, end to end**: regenerated driver (both shapes) + regenerated closure -/
+theorem ts_vreg_slope_from_source (sqrt : Rat → Rat) (xs : List (Option Rat)) (w : Nat) (mp : Option Nat) (hw : 1 ≤ w) :
+    C02Gen.E2E (fun cs =>
+    List.Forall₂ (Agree sqrt)
+      (genRun (Gen.ts_vreg_slope.step sqrt w (Gen.ts_vreg_slope.minPeriods w mp)) (Gen.ts_vreg_slope.init w) cs)
+      (rolling1 (trendSlope (effMp mp w 0)) xs w)) xs w :=
+  C02Gen.e2e_apply _ xs w hw (ts_vreg_slope_exact sqrt .to xs w mp hw) (ts_vreg_slope_exact sqrt .iter xs w mp hw)
+
+/-- **from source, end to end**: regenerated driver (both shapes) + regenerated closure -/
+theorem ts_vreg_intercept_from_source (sqrt : Rat → Rat) (xs : List (Option Rat)) (w : Nat) (mp : Option Nat) (hw : 1 ≤ w) :
+    C02Gen.E2E (fun cs =>
+    List.Forall₂ (Agree sqrt)
+      (genRun (Gen.ts_vreg_intercept.step sqrt w (Gen.ts_vreg_intercept.minPeriods w mp)) (Gen.ts_vreg_intercept.init w) cs)
+      (rolling1 (trendIntercept (effMp mp w 0)) xs w)) xs w :=
+  C02Gen.e2e_apply _ xs w hw (ts_vreg_intercept_exact sqrt .to xs w mp hw) (ts_vreg_intercept_exact sqrt .iter xs w mp hw)
+
+/-- **from source, end to end**: regenerated driver (both shapes) + regenerated closure -/
+theorem ts_vreg_resid_mean_from_source (sqrt : Rat → Rat) (xs : List (Option Rat)) (w : Nat) (mp : Option Nat) (hw : 1 ≤ w) :
+    C02Gen.E2E (fun cs =>
+    List.Forall₂ (Agree sqrt)
+      (genRun (Gen.ts_vreg_resid_mean.step sqrt w (Gen.ts_vreg_resid_mean.minPeriods w mp)) (Gen.ts_vreg_resid_mean.init w) cs)
+      (rolling1 (trendMsr (effMp mp w 0)) xs w)) xs w :=
+  C02Gen.e2e_apply _ xs w hw (ts_vreg_resid_mean_exact sqrt .to xs w mp hw) (ts_vreg_resid_mean_exact sqrt .iter xs w mp hw)
 
 end Tv.C04Gen
